@@ -52,6 +52,7 @@ CFG = {
         "Swat4.C11.C11_queue_main",
         "Swat4.C11.C11_queue_from",
         "Swat4.C11.C11_queue_no_hung",
+        "Swat4.C11.driver_queue_refines",
     ],
     "shards": (4, 16),
     "nontrivial": _c11_nontrivial,
@@ -72,7 +73,7 @@ CFG = {
     ],
     "trusted_base": COMMON_TRUSTED + [
         "harness/internal/world, harness/internal/storeops (call specs, resolver behaviours) and the renderers in Drv/Store.lean / Drv/StoreRun.lean",
-        "the theorems' history runner (Lemmas/StoreRefine.lean: stepM / runHistM) re-states the driver's runCall (Drv/StoreRun.lean); for writes their agreement is proved (driver_write_refines), reads call the same model functions; not proved: that the driver's sorting of Filter results by address is permutation-invariant, and the string renderers",
+        "the theorems' history runner (Lemmas/StoreRefine.lean: stepM / runHistM) re-states the driver's runCall (Drv/StoreRun.lean); for writes their agreement is proved (driver_write_refines), likewise for instance / queue calls with at most 98 queued probes (driver_queue_refines: runQC = runQ + trace labels), reads call the same model functions; not proved: that the driver's sorting of Filter results by address is permutation-invariant, and the string renderers",
     ],
     "manifest": {
         "text": "Lean theorems relating the Redis-level model of repositories/servers (Model/Store.lean + the lock/WATCH writer machine) "
@@ -91,7 +92,7 @@ CFG = {
                 "insClear_refines (inclusive bound at both levels, HDEL reply = rows removed) / insCount_refines, enqueue_refines (incl. the dropped case), "
                 "popMany_refines_set (all rounds, within 2*ZCARD+1 commands, the returned probes as equal lists since both levels order by (ready, id), equal "
                 "expired count), qCount_refines, and C11_queue_main - by induction over any history of instance / queue calls from the empty keyspace the "
-                "machine's replies equal those of Call.exec on the specification state, which is what the use-case programs of C04, C05, C12-C16 run on. The model is tied to the Go code by comparing every return value and the final keyspace "
+                "machine's replies equal those of Call.exec on the specification state, which is what the use-case programs of C04, C05, C12-C16 run on; driver_queue_refines - Drv.runCall computes that machine call. The model is tied to the Go code by comparing every return value and the final keyspace "
                 "of generated histories; the specification's results are also compared with the code's directly.",
         "level_note": "Proved: model refines specification, all states / records / filter sets / histories (sequential). Compared only "
                       "(finite): model = code and specification = code on generated histories. Trusted: Lean kernel; axioms propext, "
